@@ -122,6 +122,15 @@ impl<'t> Interp<'t> {
         self.check_chunk_creation(arena, before, &snap, primitive, succeeded);
         if snap.typed.cur != before.typed.cur || snap.typed.count != before.typed.count {
             self.stats.probe("chunk.switched");
+            // condition of known finding F8: inside a by_value() copy with lowered alignment the copy left a chunk
+            // whose position is not a multiple of the copy's own minimum alignment
+            let top_align = self.frames.last().unwrap().min_align;
+            let left_pos = before.typed.cur.and_then(|i| snap.typed.chunks.get(i)).map(|c| c.pos);
+            if let Some(pos) = left_pos {
+                if self.frames.iter().any(|f| f.by_value && top_align < f.min_align && pos % f.min_align != 0) {
+                    self.kf_byvalue_lowered_switch = true;
+                }
+            }
         }
         self.last = snap;
         self.check_stats(arena, true);
